@@ -338,7 +338,7 @@ func main() {
 		"new instances and leader switches on real id.Allocator objects sharing one embedded etcd; non-trivial = at least one window " +
 		"change and at least one rejected or faulted transaction; distinct by sha256 of the canonical (ops,obs) text"
 	cf := &coqfmt.CaseFile{Dir: *out, Prefix: "C04", PerFile: 100,
-		Header: "From PDV Require Import lib.Base model.C04_IdAlloc.\nLocal Open Scope Z_scope.\n",
+		Header: "From Coq Require Import String.\nFrom PDV Require Import lib.Base model.C04_IdAlloc.\nLocal Open Scope Z_scope.\nOpen Scope string_scope.\n",
 		Type:   "list op * list obs",
 		Footer: "Definition M := Eval vm_compute in map fst (mismatches cases).\nDefinition D := Eval vm_compute in hd_error (mismatches cases).\nDefinition V := Eval vm_compute in monitor_fails cases.\nPrint M. Print D. Print V.\n"}
 
